@@ -230,10 +230,31 @@ static int run_script(const char *path) {
       EV("compact", "\"level\":%d,\"lo\":%d,\"hi\":%d", a, b, c2);
       quiesce();
     } else if (!strcmp(op, "compactall")) { do_compact_all(); quiesce(); }
+    else if (!strcmp(op, "repair")) {
+      /* lose or damage the metadata, repair, open: a = 0 CURRENT lost, 1 MANIFEST lost, 2 both, 3 MANIFEST truncated */
+      char pth[1200]; DIR *dd; struct dirent *de; int rc;
+      release_all(); ldb_close(db); db = NULL; EV("closed", "\"x\":0");
+      if (a == 0 || a == 2) { snprintf(pth, sizeof(pth), "%s/CURRENT", dbdir); unlink(pth); }
+      if (a == 1 || a == 2 || a == 3) {
+        dd = opendir(dbdir);
+        while (dd && (de = readdir(dd)) != NULL) if (!strncmp(de->d_name, "MANIFEST-", 9)) {
+          snprintf(pth, sizeof(pth), "%s/%s", dbdir, de->d_name);
+          if (a == 3) { if (truncate(pth, 10) != 0) unlink(pth); } else unlink(pth);
+        }
+        if (dd) closedir(dd);
+      }
+      rc = ldb_repair(dbdir, &O.o);
+      EV("repair", "\"rc\":%d,\"variant\":%d", rc, a);
+      d_ev_ls("ls_repaired", dbdir);
+      rc = ldb_open(dbdir, &O.o, &db);
+      EV("reopen", "\"rc\":%d", rc);
+      if (rc != 0) { fclose(f); return 4; }
+    }
     else if (!strcmp(op, "snap")) { if (a >= 1 && a <= MAXS && !snaps[a]) { snaps[a] = ldb_snapshot(db); EV("snap", "\"id\":%d", a); } }
     else if (!strcmp(op, "rel")) { if (a >= 1 && a <= MAXS && snaps[a]) { ldb_release(db, snaps[a]); snaps[a] = NULL; EV("rel", "\"id\":%d", a); } }
     else if (!strcmp(op, "getall")) {
       for (s = 0; s <= MAXS; s++) { if (s && !snaps[s]) continue; for (k = 0; k < NK; k++) get_one(k, s); }
+      scan_one(0, 0);
     } else if (!strcmp(op, "scan")) { for (s = 0; s <= MAXS; s++) { if (s && !snaps[s]) continue; scan_one(s, 0); scan_one(s, 1); } }
     else if (!strcmp(op, "quiesce")) quiesce();
   }
